@@ -454,3 +454,336 @@ Proof.
     rewrite Hrun. ss. exists m'. f_equal. f_equal. f_equal.
     rewrite (map_snd_values reg m' es' Hnd Hp Hval). rewrite Hkeys. rewrite (sort_perm _ _ Hpa). reflexivity.
 Qed.
+
+(* ---- the object tree: paths ------------------------------------------------------------------------------------------------------ *)
+Lemma gp_list_set_nth : forall {A} (l : list A) k x y, nth_error l k = Some y -> nth_error (gp_list_set k x l) k = Some x.
+Proof. induction l as [|a l IH]; intros [|k] x y H; simpl in *; try discriminate; auto. eapply IH; eauto. Qed.
+Lemma gp_list_set_other : forall {A} (l : list A) k j x, j <> k -> nth_error (gp_list_set k x l) j = nth_error l j.
+Proof. induction l as [|a l IH]; intros [|k] [|j] x H; simpl; auto; try congruence. Qed.
+Lemma gp_list_set_set : forall {A} (l : list A) k x y, gp_list_set k y (gp_list_set k x l) = gp_list_set k y l.
+Proof. induction l as [|a l IH]; intros [|k] x y; simpl; auto. rewrite IH. reflexivity. Qed.
+Lemma gp_list_set_id : forall {A} (l : list A) k x, nth_error l k = Some x -> gp_list_set k x l = l.
+Proof. induction l as [|a l IH]; intros [|k] x H; simpl in *; try discriminate; auto; [congruence | rewrite IH; auto]. Qed.
+Lemma gp_list_set_app : forall {A} (a : list A) x y b, gp_list_set (length a) y (a ++ x :: b) = a ++ y :: b.
+Proof. induction a as [|z a IH]; intros; simpl; [reflexivity | rewrite IH; reflexivity]. Qed.
+Lemma nth_error_app_mid : forall {A} (a : list A) x b, nth_error (a ++ x :: b) (length a) = Some x.
+Proof. intros. rewrite nth_error_app2 by lia. rewrite Nat.sub_diag. reflexivity. Qed.
+
+Lemma forest_get_set_same : forall p ms t t', gp_forest_get ms p = Some t -> gp_forest_get (gp_forest_set ms p t') p = Some t'.
+Proof.
+  induction p as [|i p IH]; intros ms t t' H; [discriminate|]. simpl in *.
+  destruct (nth_error ms i) as [m|] eqn:Em; [|discriminate].
+  destruct p as [|j p'].
+  - rewrite (gp_list_set_nth ms i t' m Em). reflexivity.
+  - rewrite (gp_list_set_nth ms i _ m Em). simpl pm_msgs. apply (IH _ t). exact H.
+Qed.
+Lemma forest_set_cons2 : forall ms i j p' m',
+  gp_forest_set ms (i :: j :: p') m' =
+  match nth_error ms i with
+  | None => ms
+  | Some m => gp_list_set i (PMsg (pm_full m) (pm_mapentry m) (pm_fields m) (pm_oneofs m) (gp_forest_set (pm_msgs m) (j :: p') m')) ms
+  end.
+Proof. reflexivity. Qed.
+Lemma forest_get_cons2 : forall ms i j p',
+  gp_forest_get ms (i :: j :: p') = match nth_error ms i with None => None | Some m => gp_forest_get (pm_msgs m) (j :: p') end.
+Proof. reflexivity. Qed.
+Lemma forest_set_set_same : forall p ms a b, gp_forest_set (gp_forest_set ms p a) p b = gp_forest_set ms p b.
+Proof.
+  induction p as [|i p IH]; intros ms a b; [reflexivity|].
+  destruct p as [|j p'].
+  - simpl. destruct (nth_error ms i) as [m|] eqn:Em; [|rewrite Em; reflexivity].
+    rewrite (gp_list_set_nth ms i a m Em). apply gp_list_set_set.
+  - rewrite !forest_set_cons2. destruct (nth_error ms i) as [m|] eqn:Em; [|rewrite Em; reflexivity].
+    rewrite (gp_list_set_nth ms i _ m Em). cbn [pm_full pm_mapentry pm_fields pm_oneofs pm_msgs].
+    rewrite gp_list_set_set. rewrite IH. reflexivity.
+Qed.
+Lemma forest_set_get_id : forall p ms t, gp_forest_get ms p = Some t -> gp_forest_set ms p t = ms.
+Proof.
+  induction p as [|i p IH]; intros ms t H; [reflexivity|]. simpl in *.
+  destruct (nth_error ms i) as [m|] eqn:Em; [|reflexivity].
+  destruct p as [|j p'].
+  - inversion H; subst. apply gp_list_set_id. exact Em.
+  - rewrite (IH _ _ H). destruct m. simpl. apply gp_list_set_id. exact Em.
+Qed.
+Lemma forest_get_child : forall p ms k, p <> [] ->
+  gp_forest_get ms (p ++ [k]) = match gp_forest_get ms p with Some m => nth_error (pm_msgs m) k | None => None end.
+Proof.
+  induction p as [|i p IH]; intros ms k Hne; [congruence|]. simpl.
+  destruct (nth_error ms i) as [m|] eqn:Em; [|reflexivity].
+  destruct p as [|j p'].
+  - simpl. destruct (nth_error (pm_msgs m) k); reflexivity.
+  - change ((j :: p') ++ [k]) with (j :: (p' ++ [k])). change (j :: p' ++ [k]) with ((j :: p') ++ [k]). apply IH. discriminate.
+Qed.
+Lemma forest_set_child : forall p ms k m c c', gp_forest_get ms p = Some m -> nth_error (pm_msgs m) k = Some c ->
+  gp_forest_set ms (p ++ [k]) c' =
+  gp_forest_set ms p (PMsg (pm_full m) (pm_mapentry m) (pm_fields m) (pm_oneofs m) (gp_list_set k c' (pm_msgs m))).
+Proof.
+  induction p as [|i p IH]; intros ms k m c c' H Hc; [discriminate|]. simpl in *.
+  destruct (nth_error ms i) as [mi|] eqn:Em; [|discriminate].
+  destruct p as [|j p'].
+  - inversion H; subst. simpl. rewrite Hc. reflexivity.
+  - change ((j :: p') ++ [k]) with (j :: (p' ++ [k])). cbv iota. change (j :: p' ++ [k]) with ((j :: p') ++ [k]).
+    rewrite (IH _ _ _ _ c' H Hc). reflexivity.
+Qed.
+
+Lemma get_set_same : forall fs i p t t', gp_get_msg fs i p = Some t -> gp_get_msg (gp_set_msg fs i p t') i p = Some t'.
+Proof.
+  unfold gp_get_msg, gp_set_msg. intros fs i p t t' H. destruct (nth_error fs i) as [f|] eqn:Ef; [|discriminate].
+  rewrite (gp_list_set_nth fs i _ f Ef). simpl. apply (forest_get_set_same _ _ t). exact H.
+Qed.
+Lemma set_set_same : forall fs i p a b, gp_set_msg (gp_set_msg fs i p a) i p b = gp_set_msg fs i p b.
+Proof.
+  unfold gp_set_msg. intros fs i p a b. destruct (nth_error fs i) as [f|] eqn:Ef; [|rewrite Ef; reflexivity].
+  rewrite (gp_list_set_nth fs i _ f Ef). unfold gp_file_with_msgs. simpl. rewrite gp_list_set_set. rewrite forest_set_set_same. reflexivity.
+Qed.
+Lemma set_get_id : forall fs i p t, gp_get_msg fs i p = Some t -> gp_set_msg fs i p t = fs.
+Proof.
+  unfold gp_get_msg, gp_set_msg. intros fs i p t H. destruct (nth_error fs i) as [f|] eqn:Ef; [|reflexivity].
+  rewrite (forest_set_get_id _ _ _ H). destruct f. unfold gp_file_with_msgs. simpl. apply gp_list_set_id. exact Ef.
+Qed.
+Lemma get_child : forall fs i p k, p <> [] ->
+  gp_get_msg fs i (p ++ [k]) = match gp_get_msg fs i p with Some m => nth_error (pm_msgs m) k | None => None end.
+Proof. unfold gp_get_msg. intros fs i p k Hne. destruct (nth_error fs i); [apply forest_get_child; exact Hne | reflexivity]. Qed.
+Lemma set_child : forall fs i p k m c c', gp_get_msg fs i p = Some m -> nth_error (pm_msgs m) k = Some c ->
+  gp_set_msg fs i (p ++ [k]) c' = gp_set_msg fs i p (PMsg (pm_full m) (pm_mapentry m) (pm_fields m) (pm_oneofs m) (gp_list_set k c' (pm_msgs m))).
+Proof.
+  unfold gp_get_msg, gp_set_msg. intros fs i p k m c c' H Hc. destruct (nth_error fs i) as [f|]; [|discriminate].
+  rewrite (forest_set_child _ _ _ _ _ c' H Hc). reflexivity.
+Qed.
+Lemma get_msg_path_ne : forall fs i p t, gp_get_msg fs i p = Some t -> p <> [].
+Proof. unfold gp_get_msg. intros fs i p t H. destruct (nth_error fs i); [|discriminate]. destruct p; [discriminate | discriminate]. Qed.
+
+(* ---- (b) rewriteMessageField ------------------------------------------------------------------------------------------------------- *)
+Lemma rewrite_field_reserved : forall g, is_reserved g = true -> rewrite_field g = g ++ [us].
+Proof. intros g H. unfold rewrite_field. rewrite H. reflexivity. Qed.
+Lemma rewrite_field_free : forall g, is_reserved g = false -> rewrite_field g = g.
+Proof. intros g H. unfold rewrite_field. rewrite H. reflexivity. Qed.
+
+Section RW.
+  Variable perm : gpmap -> gpmap.
+  Variable sorter : (gpvalue -> gpvalue -> bool) -> list gpvalue -> list gpvalue.
+  Variable feat_gen : gpvalue -> bool.
+  Variable call : gname -> list gpvalue -> gpstate -> gpres (list gpvalue).
+  Variables (G : gpframe) (MM : list gpmap) (O : list pout) (P : list (name * name)) (E : option (gname * list name)).
+  Variables (i : nat) (p : list nat) (q r : nat) (rm : gpmap).
+  Hypothesis HG : gp_glob_get "reservedFieldNames"%gname G = Some (GpvMap (Some r)).
+  Hypothesis HR : gp_heap_get MM r = Some rm.
+  Hypothesis Hrm : forall g, gp_map_get g rm <> None <-> is_reserved g = true.
+  Variables (full : name) (me : bool).
+
+  Notation STR F :=
+    {| gp_env := [[("message"%gname, GpvMsg i p); ("processed"%gname, GpvMap (Some q))]]; gp_glob := G; gp_maps := MM; gp_files := F;
+       gp_outs := O; gp_params := P; gp_err := E |}.
+
+  Ltac rws3 Hget Ef Es :=
+    ss; repeat (progress (rewrite ?HG, ?HR, ?Hget, ?Ef, ?Es, ?nth_error_app_mid, ?gp_list_set_app); ss); reflexivity.
+  Ltac rws Hget Ef := rws3 Hget Ef Ef.
+
+  Lemma rw_fields_loop : forall os ms rest done_fs F j,
+    gp_get_msg F i p = Some (PMsg full me (done_fs ++ rest) os ms) ->
+    gp_loop (gp_range_step perm sorter feat_gen call "_" "field" canon_rw_fields_body)
+            (gp_index_items j (map (GpvField i p) (seq (length done_fs) (length rest)))) (STR F)
+    = GpOk GsgNext (STR (gp_set_msg F i p (PMsg full me (done_fs ++ map gp_rw_field rest) os ms))).
+  Proof.
+    intros os ms. induction rest as [|f rest IH]; intros done_fs F j Hget.
+    - simpl. rewrite (set_get_id _ _ _ _ Hget). reflexivity.
+    - simpl length. simpl seq. simpl map. simpl gp_index_items. loop_head.
+      unfold gp_range_step at 1. unfold gp_scoped. unfold canon_rw_fields_body.
+      destruct (gp_map_get (pf_go f) rm) as [u|] eqn:Ef.
+      + assert (Hres : is_reserved (pf_go f) = true) by (apply Hrm; congruence).
+        exec_head ltac:(rws Hget Ef).
+        exec_head ltac:(rws Hget Ef).
+        exec_head ltac:(rws Hget Ef).
+        exec_head ltac:(rws Hget Ef).
+        rewrite gp_block_nil. ss. fold canon_rw_fields_body.
+        change (pf_go f ++ ["_"%byte]) with (pf_go f ++ [us]). rewrite <- (rewrite_field_reserved _ Hres).
+        change {| pf_go := rewrite_field (pf_go f); pf_full := pf_full f |} with (gp_rw_field f).
+        replace (S (length done_fs)) with (length (done_fs ++ [gp_rw_field f])) by (rewrite app_length; simpl; lia).
+        rewrite (IH (done_fs ++ [gp_rw_field f])); [|rewrite <- app_assoc; apply (get_set_same _ _ _ _ _ Hget)].
+        rewrite set_set_same. rewrite <- app_assoc. reflexivity.
+      + assert (Hres : is_reserved (pf_go f) = false).
+        { destruct (is_reserved (pf_go f)) eqn:Er; [|reflexivity]. apply Hrm in Er. congruence. }
+        exec_head ltac:(rws Hget Ef).
+        exec_head ltac:(rws Hget Ef).
+        ss. fold canon_rw_fields_body.
+        replace (S (length done_fs)) with (length (done_fs ++ [f])) by (rewrite app_length; simpl; lia).
+        rewrite (IH (done_fs ++ [f])); [|rewrite <- app_assoc; exact Hget].
+        rewrite <- app_assoc. simpl.
+        replace (gp_rw_field f) with f; [reflexivity|]. unfold gp_rw_field. rewrite (rewrite_field_free _ Hres). destruct f; reflexivity.
+  Qed.
+
+  Lemma rw_oneofs_loop : forall fs ms rest done_os F j,
+    gp_get_msg F i p = Some (PMsg full me fs (done_os ++ rest) ms) ->
+    gp_loop (gp_range_step perm sorter feat_gen call "_" "oneof" canon_rw_oneofs_body)
+            (gp_index_items j (map (GpvOneof i p) (seq (length done_os) (length rest)))) (STR F)
+    = GpOk GsgNext (STR (gp_set_msg F i p (PMsg full me fs (done_os ++ map gp_rw_oneof rest) ms))).
+  Proof.
+    intros fs ms. induction rest as [|o rest IH]; intros done_os F j Hget.
+    - simpl. rewrite (set_get_id _ _ _ _ Hget). reflexivity.
+    - simpl length. simpl seq. simpl map. simpl gp_index_items. loop_head.
+      unfold gp_range_step at 1. unfold gp_scoped. unfold canon_rw_oneofs_body.
+      destruct (gp_map_get (po_go o) rm) as [u|] eqn:Ef; [destruct (po_syn o) eqn:Esyn|].
+      + (* reserved but synthetic: continue *)
+        exec_head ltac:(rws3 Hget Ef Esyn).
+        ss. fold canon_rw_oneofs_body.
+        replace (S (length done_os)) with (length (done_os ++ [o])) by (rewrite app_length; simpl; lia).
+        rewrite (IH (done_os ++ [o])); [|rewrite <- app_assoc; exact Hget].
+        rewrite <- app_assoc. simpl. replace (gp_rw_oneof o) with o; [reflexivity|]. unfold gp_rw_oneof. rewrite Esyn. reflexivity.
+      + assert (Hres : is_reserved (po_go o) = true) by (apply Hrm; congruence).
+        exec_head ltac:(rws3 Hget Ef Esyn).
+        exec_head ltac:(rws Hget Ef).
+        exec_head ltac:(rws Hget Ef).
+        rewrite gp_block_nil. ss. fold canon_rw_oneofs_body.
+        change (po_go o ++ ["_"%byte]) with (po_go o ++ [us]). rewrite <- (rewrite_field_reserved _ Hres).
+        replace {| po_go := rewrite_field (po_go o); po_syn := po_syn o; po_full := po_full o |} with (gp_rw_oneof o)
+          by (unfold gp_rw_oneof; rewrite Esyn; reflexivity).
+        replace (S (length done_os)) with (length (done_os ++ [gp_rw_oneof o])) by (rewrite app_length; simpl; lia).
+        rewrite (IH (done_os ++ [gp_rw_oneof o])); [|rewrite <- app_assoc; apply (get_set_same _ _ _ _ _ Hget)].
+        rewrite set_set_same. rewrite <- app_assoc. reflexivity.
+      + assert (Hres : is_reserved (po_go o) = false).
+        { destruct (is_reserved (po_go o)) eqn:Er; [|reflexivity]. apply Hrm in Er. congruence. }
+        exec_head ltac:(rws Hget Ef).
+        ss. fold canon_rw_oneofs_body.
+        replace (S (length done_os)) with (length (done_os ++ [o])) by (rewrite app_length; simpl; lia).
+        rewrite (IH (done_os ++ [o])); [|rewrite <- app_assoc; exact Hget].
+        rewrite <- app_assoc. simpl.
+        replace (gp_rw_oneof o) with o; [reflexivity|]. unfold gp_rw_oneof. rewrite (rewrite_field_free _ Hres). destruct o as [g sy fu]; simpl. destruct sy; reflexivity.
+  Qed.
+End RW.
+
+Fixpoint pmsg_ind' (Q : pmsg -> Prop) (H : forall full me fs os ms, Forall Q ms -> Q (PMsg full me fs os ms)) (m : pmsg) : Q m :=
+  match m with
+  | PMsg full me fs os ms =>
+    H full me fs os ms ((fix go (l : list pmsg) : Forall Q l :=
+                           match l with [] => Forall_nil Q | c :: t => Forall_cons c (pmsg_ind' Q H c) (go t) end) ms)
+  end.
+
+Lemma gp_rw_msg_eq : forall full me fs os ms done,
+  gp_rw_msg (PMsg full me fs os ms) done =
+  match gp_map_get full done with
+  | Some _ => (PMsg full me fs os ms, done)
+  | None => if me then (PMsg full me fs os ms, done)
+            else (PMsg full me (map gp_rw_field fs) (map gp_rw_oneof os) (fst (gp_rw_forest ms (gp_map_set full GpvUnit done))),
+                  snd (gp_rw_forest ms (gp_map_set full GpvUnit done)))
+  end.
+Proof. reflexivity. Qed.
+
+Lemma gp_heap_get_set_same : forall MM q d x, gp_heap_get MM q = Some d -> gp_heap_get (gp_list_set q x MM) q = Some x.
+Proof. unfold gp_heap_get. intros. eapply gp_list_set_nth; eauto. Qed.
+Lemma gp_heap_get_set_other : forall MM q r x, q <> r -> gp_heap_get (gp_list_set q x MM) r = gp_heap_get MM r.
+Proof. unfold gp_heap_get. intros. apply gp_list_set_other. congruence. Qed.
+
+Section RW2.
+  Variable perm : gpmap -> gpmap.
+  Variable sorter : (gpvalue -> gpvalue -> bool) -> list gpvalue -> list gpvalue.
+  Variable feat_gen : gpvalue -> bool.
+  Variable call : gname -> list gpvalue -> gpstate -> gpres (list gpvalue).
+  Variables (G : gpframe) (O : list pout) (P : list (name * name)) (E : option (gname * list name)).
+  Variables (i : nat) (p : list nat) (q r : nat) (rm : gpmap).
+  Hypothesis HG : gp_glob_get "reservedFieldNames"%gname G = Some (GpvMap (Some r)).
+  Hypothesis Hqr : q <> r.
+  Hypothesis Hp : p <> [].
+  Variables (full : name) (me : bool) (fs : list pfield) (os : list poneof).
+
+  Definition child_ok (c : pmsg) : Prop :=
+    forall st k d,
+      gp_glob_get "reservedFieldNames"%gname (gp_glob st) = Some (GpvMap (Some r)) -> gp_heap_get (gp_maps st) r = Some rm ->
+      gp_heap_get (gp_maps st) q = Some d -> gp_get_msg (gp_files st) i (p ++ [k]) = Some c ->
+      call "rewriteMessageField"%gname [GpvMsg i (p ++ [k]); GpvMap (Some q)] st
+      = GpOk [] (gp_with_maps (gp_with_files st (gp_set_msg (gp_files st) i (p ++ [k]) (fst (gp_rw_msg c d))))
+                              (gp_list_set q (snd (gp_rw_msg c d)) (gp_maps st))).
+
+  Notation STN F MM :=
+    {| gp_env := [[("message"%gname, GpvMsg i p); ("processed"%gname, GpvMap (Some q))]]; gp_glob := G; gp_maps := MM; gp_files := F;
+       gp_outs := O; gp_params := P; gp_err := E |}.
+
+  Lemma rw_nested_loop : forall rest done_ms F MM d j,
+    Forall child_ok rest ->
+    gp_get_msg F i p = Some (PMsg full me fs os (done_ms ++ rest)) -> gp_heap_get MM q = Some d -> gp_heap_get MM r = Some rm ->
+    gp_loop (gp_range_step perm sorter feat_gen call "_" "nestedMessage" canon_rw_nested_body)
+            (gp_index_items j (map (fun k => GpvMsg i (p ++ [k])) (seq (length done_ms) (length rest)))) (STN F MM)
+    = GpOk GsgNext (STN (gp_set_msg F i p (PMsg full me fs os (done_ms ++ fst (gp_rw_forest rest d)))) (gp_list_set q (snd (gp_rw_forest rest d)) MM)).
+  Proof.
+    induction rest as [|c rest IH]; intros done_ms F MM d j Hall Hget Hq Hr.
+    - cbn [length seq map gp_index_items gp_rw_forest fst snd]. rewrite (set_get_id _ _ _ _ Hget). unfold gp_heap_get in Hq.
+      rewrite (@gp_list_set_id gpmap MM q d Hq). reflexivity.
+    - inversion Hall as [|? ? Hc Hrest]; subst.
+      simpl length. simpl seq. simpl map. simpl gp_index_items. loop_head.
+      unfold gp_range_step at 1. unfold gp_scoped. unfold canon_rw_nested_body.
+      assert (Hgc : gp_get_msg F i (p ++ [length done_ms]) = Some c).
+      { rewrite (get_child _ _ _ _ Hp). rewrite Hget. simpl. apply nth_error_app_mid. }
+      exec_head ltac:(ss; match goal with |- context [call _ _ ?st] => rewrite (Hc st (length done_ms) d HG Hr Hq Hgc) end; ss; reflexivity).
+      rewrite gp_block_nil. ss. fold canon_rw_nested_body.
+      rewrite (set_child _ _ _ _ _ c _ Hget (nth_error_app_mid _ _ _)). simpl pm_full. simpl pm_mapentry. simpl pm_fields. simpl pm_oneofs.
+      cbn [pm_msgs]. rewrite gp_list_set_app.
+      replace (S (length done_ms)) with (length (done_ms ++ [fst (gp_rw_msg c d)])) by (rewrite app_length; simpl; lia).
+      rewrite (IH (done_ms ++ [fst (gp_rw_msg c d)]) _ _ (snd (gp_rw_msg c d)) (S j) Hrest).
+      + rewrite set_set_same. rewrite gp_list_set_set. rewrite <- app_assoc. reflexivity.
+      + rewrite <- app_assoc. apply (get_set_same _ _ _ _ _ Hget).
+      + apply (gp_heap_get_set_same _ _ d). exact Hq.
+      + rewrite gp_heap_get_set_other by exact Hqr. exact Hr.
+  Qed.
+End RW2.
+
+Lemma pm_depth_children : forall full me fs os ms fuel c, pm_depth (PMsg full me fs os ms) <= S fuel -> In c ms -> pm_depth c <= fuel.
+Proof.
+  intros full me fs os ms fuel c H Hin. simpl in H. apply le_S_n in H.
+  induction ms as [|a ms IH]; [destruct Hin|]. simpl in H. destruct Hin as [->|Hin]; [lia | apply IH; [lia | exact Hin]].
+Qed.
+
+Lemma gpstate_eta : forall st,
+  {| gp_env := gp_env st; gp_glob := gp_glob st; gp_maps := gp_maps st; gp_files := gp_files st; gp_outs := gp_outs st;
+     gp_params := gp_params st; gp_err := gp_err st |} = st.
+Proof. destruct st; reflexivity. Qed.
+
+Ltac rwx a b c d := ss; repeat (progress (rewrite ?a, ?b, ?c, ?d); ss); reflexivity.
+
+Lemma rewrite_prog : rewrite_prog_stmt.
+Proof.
+  intros perm sorter feat_gen fuel st r q i p t. revert fuel st r q i p.
+  induction t as [full me fs os ms IHms] using pmsg_ind'.
+  intros fuel st r q i p done [HG [rm [HR Hrm]]] Hqr Hq Hget Hdepth.
+  destruct fuel as [|fuel]; [simpl in Hdepth; lia|].
+  assert (Hp : p <> []) by (apply (get_msg_path_ne _ _ _ _ Hget)).
+  rewrite gp_rw_msg_eq. rewrite gp_call_S. set (call := gp_call perm sorter feat_gen canon_genprog fuel).
+  ss. unfold canon_rewriteMessageField_body.
+  destruct (gp_map_get full done) as [u|] eqn:Edone.
+  { (* already processed *)
+    exec_head ltac:(rwx Hq Hget Edone Edone).
+    ss. rewrite (set_get_id _ _ _ _ Hget). unfold gp_heap_get in Hq. rewrite (@gp_list_set_id gpmap _ _ _ Hq). rewrite gpstate_eta. reflexivity. }
+  exec_head ltac:(rwx Hq Hget Edone Edone).
+  destruct me.
+  { (* a map entry *)
+    exec_head ltac:(rwx Hget Hget Hget Hget).
+    ss. rewrite (set_get_id _ _ _ _ Hget). unfold gp_heap_get in Hq. rewrite (@gp_list_set_id gpmap _ _ _ Hq). rewrite gpstate_eta. reflexivity. }
+  exec_head ltac:(rwx Hget Hget Hget Hget).
+  (* the fields *)
+  rewrite gp_block_cons. rewrite gp_exec_range. ss. rewrite Hget. ss.
+  pose proof (rw_fields_loop perm sorter feat_gen call (gp_glob st) (gp_maps st) (gp_outs st) (gp_params st) (gp_err st) i p q r rm HG HR Hrm full false
+                          os ms fs [] (gp_files st) 0 Hget) as HL1.
+  cbn [length app] in HL1. rewrite HL1. clear HL1. ss.
+  (* the oneofs *)
+  pose proof (get_set_same _ _ _ _ (PMsg full false (map gp_rw_field fs) os ms) Hget) as Hget1.
+  rewrite gp_block_cons. rewrite gp_exec_range. ss. rewrite Hget1. ss.
+  pose proof (rw_oneofs_loop perm sorter feat_gen call (gp_glob st) (gp_maps st) (gp_outs st) (gp_params st) (gp_err st) i p q r rm HG HR Hrm full false
+                          (map gp_rw_field fs) ms os [] _ 0 Hget1) as HL2.
+  cbn [length app] in HL2. rewrite HL2. clear HL2. ss. rewrite set_set_same.
+  pose proof (get_set_same _ _ _ _ (PMsg full false (map gp_rw_field fs) (map gp_rw_oneof os) ms) Hget) as Hget2.
+  (* processed[full] = struct{}{} *)
+  exec_head ltac:(rwx Hget2 Hq Hq Hq).
+  (* the nested messages *)
+  rewrite gp_block_cons. rewrite gp_exec_range. ss. rewrite Hget2. ss.
+  assert (Hchildren : Forall (child_ok call i p q r rm) ms).
+  { apply Forall_forall. intros c Hin. rewrite Forall_forall in IHms. intros st' k d' HG' HR' Hq' Hget'.
+    apply (IHms c Hin fuel st' r q i (p ++ [k]) d'); try assumption.
+    - split; [exact HG' | exists rm; split; [exact HR' | exact Hrm]].
+    - apply (pm_depth_children full false fs os ms); assumption. }
+  assert (Hq3 : gp_heap_get (gp_list_set q (gp_map_set full GpvUnit done) (gp_maps st)) q = Some (gp_map_set full GpvUnit done))
+    by (apply (gp_heap_get_set_same _ _ done); exact Hq).
+  assert (Hr3 : gp_heap_get (gp_list_set q (gp_map_set full GpvUnit done) (gp_maps st)) r = Some rm)
+    by (rewrite gp_heap_get_set_other by exact Hqr; exact HR).
+  pose proof (rw_nested_loop perm sorter feat_gen call (gp_glob st) (gp_outs st) (gp_params st) (gp_err st) i p q r rm HG Hqr Hp full false
+                          (map gp_rw_field fs) (map gp_rw_oneof os) ms [] _ _ (gp_map_set full GpvUnit done) 0 Hchildren Hget2 Hq3 Hr3) as HL3.
+  cbn [length app] in HL3. rewrite HL3. clear HL3.
+  ss. rewrite set_set_same. rewrite gp_list_set_set. reflexivity.
+Qed.
